@@ -151,7 +151,11 @@ class Typedef(_Serializable):
     @property
     def lowermost_typedef(self):
         lowermost = self.definition
+        visited = []
         while isinstance(lowermost, Typedef):
+            if any(lowermost is one for one in visited):
+                raise ModelError("Cyclic definition of typedef '%s'." % lowermost.name)
+            visited.append(lowermost)
             lowermost = lowermost.definition
         return lowermost
 
